@@ -1,8 +1,18 @@
 (* The flow part of the C04 oracle (results, positions, term count, tail counters) is true on the observations the
    model itself produces, for every offer / claim / bulk offer from every state satisfying the invariant. *)
-Require Import V.Base.MachineInt V.Generated.GenConsts V.Model.Descriptor V.Model.LogBase V.Model.LogDelta V.Model.Appender
-               V.Model.Publication V.Proofs.DescriptorProofs V.Proofs.AppenderProofs V.Proofs.PublicationProofs
-               V.Proofs.BulkProofs V.Proofs.C04Proofs V.Oracle.C04Oracle.
+Require Import V.Base.MachineInt.
+Require Import V.Generated.GenConsts.
+Require Import V.Model.Descriptor.
+Require Import V.Model.LogBase.
+Require Import V.Model.LogDelta.
+Require Import V.Model.Appender.
+Require Import V.Model.Publication.
+Require Import V.Proofs.DescriptorProofs.
+Require Import V.Proofs.AppenderProofs.
+Require Import V.Proofs.PublicationProofs.
+Require Import V.Proofs.BulkProofs.
+Require Import V.Proofs.C04Proofs.
+Require Import V.Oracle.C04Oracle.
 From Coq Require Import ZifyBool.
 Open Scope Z_scope.
 
